@@ -828,3 +828,83 @@ def c14_r14(ctx):
     good = all(st.get(k) == v for k, v in want.items()) and st.get("self._variables") in (f"{ps[1]} or {{}}", f"{ps[1]} if {ps[1]} is not None else {{}}", f"dict({ps[1]} or {{}})")
     ctx.check(good, key(init, "fresh state"), f"a new field object must start with its own name, the given arguments (or none), no sub-fields, no alias, no inline fragments: {st}", init.loc(),
               okmsg="GraphQLField(): own name and arguments, everything else empty and per instance")
+
+
+@rule("C17.R9", "the entry points route: strategy -> its function; schema from the configured source (path wins over url); operations only when a queries path is set", min_instances=9,
+      also=["C19", "C16", "C02", "C04", "C01"])
+def c17_r9(ctx):
+    repo = ctx.repo
+    m = repo.func("main:main")
+    eff = lambda c: dotted(c.func) in ("client", "graphql_schema")
+    for strat, want in (("CLIENT", "client"), ("GRAPHQL_SCHEMA", "graphql_schema")):
+        def atom(e, strat=strat):
+            t = norm(strip_pre(e))
+            for s_ in ("CLIENT", "GRAPHQL_SCHEMA"):
+                if t in (f"strategy == Strategy.{s_}", f"strategy is Strategy.{s_}", f"strategy == Strategy.{s_}.value"):
+                    return s_ == strat
+                if t in (f"strategy != Strategy.{s_}",):
+                    return s_ != strat
+            return None
+        outs = Interp(m, atom, is_effect=eff).run()
+        effs = [[dotted(strip_pre(e).func) for e in o.effects] for o in outs]
+        ctx.check(bool(effs) and all(e == [want] for e in effs), key(m, f"strategy {strat}"), f"strategy {strat} runs {effs}; expected exactly {want}(config_dict)", m.loc(), okmsg=f"strategy {strat} -> {want}()")
+    def S(t):
+        return str(t).replace("get_client_settings(config_dict=config_dict)", "settings").replace("get_graphql_schema_settings(config_dict=config_dict)", "settings") \
+            .replace("get_client_settings(config_dict)", "settings").replace("get_graphql_schema_settings(config_dict)", "settings")
+
+    for fn in ("client", "graphql_schema"):
+        fi = repo.func("main:" + fn)
+        effs_of = lambda c: dotted(c.func) in ("get_graphql_schema_from_path", "get_graphql_schema_from_url", "get_graphql_queries", "filter_operations_definitions", "filter_fragments_definitions")
+        for has_path in (True, False):
+            def atom(e, has_path=has_path):
+                t = S(norm(strip_pre(e)))
+                if t == "settings.schema_path":
+                    return has_path
+                if t == "not settings.schema_path":
+                    return not has_path
+                if t == "settings.queries_path":
+                    return False
+                return None
+            it = Interp(fi, atom, is_effect=effs_of)
+            outs = it.run()
+            good = bool(outs)
+            for o in outs:
+                calls = [S(norm(strip_pre(e))) for e in o.effects]
+                loaders = [c for c in calls if c.startswith("get_graphql_schema_from_")]
+                # the loader may also be evaluated inside a conditional expression that the scenario decides
+                txt = " ".join(calls) + " " + " ".join(S(norm(strip_pre(it._simp(subst(v_, o.env), o.env)))) for v_ in o.env.values() if isinstance(v_, ast.AST))
+                if has_path:
+                    good = good and ("get_graphql_schema_from_path(schema_path=settings.schema_path)" in txt or "get_graphql_schema_from_path(settings.schema_path)" in txt) and \
+                        "get_graphql_schema_from_url(" not in txt
+                else:
+                    good = good and "get_graphql_schema_from_url(url=settings.remote_schema_url, headers=settings.remote_schema_headers, verify_ssl=settings.remote_schema_verify_ssl)" in txt and \
+                        "get_graphql_schema_from_path(" not in txt
+            ctx.check(good, key(fi, f"schema_path set={has_path}"), f"main.{fn} with schema_path {'set' if has_path else 'unset'}: the schema must come from "
+                      f"{'get_graphql_schema_from_path(settings.schema_path)' if has_path else 'get_graphql_schema_from_url(url, headers, verify_ssl of the settings)'} and from nothing else", fi.loc(),
+                      okmsg=f"main.{fn}: schema_path {'set -> file(s)' if has_path else 'unset -> introspection'}")
+    fi = repo.func("main:client")
+    effq = lambda c: dotted(c.func) in ("get_graphql_queries", "get_package_generator", "package_generator.add_operation") or norm(c.func).endswith(".add_operation")
+    for has_q in (True, False):
+        outs = [o for o in Interp(fi, lambda e, has_q=has_q: (has_q if S(norm(strip_pre(e))) == "settings.queries_path" else True if S(norm(strip_pre(e))) == "settings.schema_path" else None), is_effect=effq).run()
+                if not has_q or any("loop body once" in t for t in o.trace)]
+        good = bool(outs)
+        for o in outs:
+            calls = [S(norm(strip_pre(subst(strip_pre(e), o.env, deep=True)))) for e in o.effects]
+            if has_q:
+                good = good and any(c.startswith("get_graphql_queries(") and "settings.queries_path" in c for c in calls) and \
+                    any(".add_operation(" in c and "<elem>(filter_operations_definitions(" in c for c in calls) and \
+                    any(c.startswith("get_package_generator(") and "fragments=filter_fragments_definitions(" in c for c in calls)
+            else:
+                good = good and not any(c.startswith("get_graphql_queries(") or (".add_operation(" in c and "<elem>([])" not in c) for c in calls) and any(c.startswith("get_package_generator(") and "fragments=[]" in c for c in calls)
+        ctx.check(good, key(fi, f"queries_path set={has_q}"), f"main.client with queries_path {'set' if has_q else 'unset'}: {[o.text()[:160] for o in outs][:1]}; expected "
+                  + ("the validated definitions split into operations (each added to the package) and fragments (handed to the package generator)" if has_q else "no operation, no fragment"), fi.loc(),
+                  okmsg=f"main.client: queries_path {'set -> operations added, fragments handed over' if has_q else 'unset -> schema types only'}")
+    for fn, kind in (("filter_operations_definitions", "OperationDefinitionNode"), ("filter_fragments_definitions", "FragmentDefinitionNode")):
+        f2 = repo.func("schema:" + fn)
+        outs = [o for o in Interp(f2, lambda e: None).run() if o.kind == "return"]
+        p = real_params(f2)[0]
+        good = bool(outs)
+        for o in outs:
+            cs = comp_struct(strip_pre(o.deref(o.value)) if isinstance(o.value, ast.Name) else strip_pre(o.value)) if o.value is not None else None
+            good = good and cs is not None and cs[0] == "$0" and [(str(a), list(map(str, b))) for a, b in cs[1]] == [(p, [f"isinstance($0, {kind})"])]
+        ctx.check(good, key(f2, "selects"), f"{fn} must return exactly the {kind}s of the document: {[o.text()[:100] for o in outs]}", f2.loc(), okmsg=f"{fn} -> the {kind}s, in document order")
